@@ -19,11 +19,15 @@
      (termini)  a PROPKA row for N+ / C- reaches the N+ / C- site of apply_pka_values
    so C06_decide_spec speaks about apply_pka_values GIVEN its pKa dict; for the
    termini the pipeline never supplies the entry (C06_pipeline_terminus_refuted).
-   One-residue chains (position N+C) are outside the statements about support:
-   C06_charge_monotone_output_partial keeps that guard; explored by the check. *)
+   The OUTPUT statements (C06_charge_monotone_output, C06_decided_state_parameterised)
+   cover all four positions: the charge of a residue is the sum of the exact
+   charges FF_<ff>.built gives the final atom set of its state (C02's state rows),
+   atoms without parameters being omitted as apply_force_field omits them. A
+   one-residue chain (N+C) is modelled as the code treats it: named N* only, so
+   OXT / HO are written without parameters and only the N-terminal state charges it. *)
 From Coq Require Import String List Bool ZArith QArith PArith.
 From PV Require Import Lib.Strings Model.ForceField Model.Titration Proofs.Titration.
-From PV Require Generated.Titration.
+From PV Require Model.States Generated.States Generated.Titration.
 Import ListNotations.
 
 (* -- the group ends protonated exactly when pH < pKa, within support ------------- *)
@@ -79,15 +83,61 @@ Proof. exact charge_monotone_formal. Qed.
 Theorem C06_formal_defined : forall ff t pos s, residue_formal formalf ff t pos s <> None.
 Proof. exact formal_defined. Qed.
 
-(* charge reaching the output (a residue with an unparameterisable state
-   would contribute nothing): monotone for all lists of residues at the three
-   positions; partial because one-residue chains are not covered *)
-Theorem C06_charge_monotone_output_partial : forall ff (rs : list tspec) (ph1 ph2 : Q),
-  In ff six_ffs ->
-  (forall r, In r rs -> In (ts_pos r) proper_positions) ->
-  (ph1 <= ph2)%Q ->
-  (total_charge outZ ff ph2 rs <= total_charge outZ ff ph1 rs)%Z.
-Proof. exact charge_monotone_output_partial. Qed.
+(* -- the charge that reaches the output ------------------------------------------------------- *)
+
+(* cell_out ff t pos s = (charge written, atoms written without parameters) of the state
+   the code produces: decide -> patches -> C02 state row(s) -> assigned over FF_<ff>.built;
+   it is defined (all rows and alternatives agree) for every cell *)
+Theorem C06_output_defined : forall ff t pos s, In ff six_ffs -> cell_out ff t pos s <> None.
+Proof. exact out_defined. Qed.
+
+(* the rows used are those of the state name(s) the naming model gives the cell *)
+Theorem C06_state_rows_match_names : forall ff t pos s r,
+  In r (rows_for PV.Generated.States.arows t pos (residue_patches ff t pos s)) ->
+  exists n, In n (residue_names ff t pos s) /\
+            name_id Generated.Titration.name_ids n = Some (PV.Model.States.ar_ff r).
+Proof. exact rows_match_names. Qed.
+
+(* FULL: ALL residue lists (all four positions, one-residue chains included), ALL pKa
+   assignments, pH1 <= pH2, six force fields: the sum of the exact force-field charges of
+   the states the code produces never increases *)
+Theorem C06_charge_monotone_output : forall ff (rs : list tspec) (ph1 ph2 : Q),
+  In ff six_ffs -> (ph1 <= ph2)%Q ->
+  (total_charge exactZ ff ph2 rs <= total_charge exactZ ff ph1 rs)%Z.
+Proof. exact charge_monotone_output. Qed.
+
+(* titration never makes an atom unparameterised (all four positions): an atom the decided
+   state is written without is one the untitrated residue is written without as well, or - in
+   a one-residue chain - one of the atoms NEUTRAL-CTERM adds *)
+Theorem C06_decided_state_parameterised : forall ff t pos s, In ff six_ffs ->
+  exists q0 md q mx,
+    cell_out ff t pos no_sides = Some (q0, md) /\ cell_out ff t pos s = Some (q, mx) /\
+    forall a, In a mx -> In a md \/ (pos = PosNC /\ In a cterm_added).
+Proof. exact decided_state_parameterised. Qed.
+
+Theorem C06_decided_state_fully_parameterised : forall ff t pos s q0, In ff six_ffs -> In pos proper_positions ->
+  cell_out ff t pos no_sides = Some (q0, []) ->
+  exists q, cell_out ff t pos s = Some (q, []).
+Proof. exact decided_state_fully_parameterised. Qed.
+
+(* composition with C02 (StatesFF_<ff>.state_exact): a completely written state carries
+   EXACTLY its formal charge, except the states C02 lists as findings (PARSE NEUTRAL-CPRO) *)
+Theorem C06_output_is_formal : forall ff t pos ps r alt q, In ff six_ffs ->
+  In r (rows_for PV.Generated.States.arows t pos ps) ->
+  In alt (real_alts Generated.Titration.never_final r) ->
+  ~ In (PV.Model.States.ar_key r) (exc_keys ff) ->
+  assigned (builtf ff) (PV.Model.States.ar_ff r) alt = (q, []) ->
+  q = (PV.Model.States.ar_formal r * PV.Model.States.SCALE)%Z.
+Proof. exact output_is_formal. Qed.
+
+(* the one-residue chain as the code treats it, and two ordinary cells *)
+Example C06_one_residue_chain_as_is :
+  (exists oxt, cell_out Amber ALA PosNC no_sides = Some (100000000%Z, [oxt])) /\
+  (exists ho oxt, cell_out Parse ALA PosNC (mksides None (Some true) None) = Some (100000000%Z, [ho; oxt])) /\
+  cell_out Parse ALA PosNC (mksides (Some false) None None) <> cell_out Parse ALA PosNC no_sides /\
+  cell_out Amber CYS PosMid (mksides None None (Some false)) = Some ((-100000000)%Z, []) /\
+  cell_out Amber ALA PosC no_sides = Some ((-100000000)%Z, []).
+Proof. exact one_residue_chain_as_is. Qed.
 
 (* -- keys ---------------------------------------------------------------------------------- *)
 
@@ -104,6 +154,20 @@ Theorem C06_key_collision_refuted :
     key_side r1 = key_side r2 /\
     fst (apply_pka_values ff ph d [r1; r2]) <> map (site_result ff ph d) (flat_map items_of [r1; r2]).
 Proof. exact key_collision_refuted. Qed.
+
+(* for ALL integers (negative, zero, 4+ digits) and names / chain ids without outer
+   whitespace: the dict key main.py builds from res_name, res_num, chain_id is the key
+   apply_pka_values computes for that residue, so the row is found at its site *)
+Theorem C06_row_key_is_lookup_key : forall (name chain label : string) (num : Z) (pka : Q) (am nt ct : bool),
+  lstrip name = name -> name <> EmptyString -> rstrip chain = chain -> chain <> EmptyString ->
+  row_key (mkpkarow name num chain label pka) = key_side (mkres am name num chain nt ct).
+Proof. exact row_key_is_lookup_key. Qed.
+
+Theorem C06_row_reaches_site : forall (name chain label : string) (num : Z) (pka : Q) (am nt ct : bool),
+  lstrip name = name -> name <> EmptyString -> rstrip chain = chain -> chain <> EmptyString ->
+  prefix_of name label = true ->
+  sget (dict_of_rows [mkpkarow name num chain label pka]) (key_side (mkres am name num chain nt ct)) = Some pka.
+Proof. exact row_reaches_site. Qed.
 
 (* main.py keeps only rows whose PROPKA label starts with the residue name *)
 Theorem C06_rows_filtered : forall rows,
@@ -135,8 +199,8 @@ Proof. exact nonvacuous. Qed.
 
 (* the former F10 witness of the output-charge statement, now a regression fact *)
 Example C06_former_f10_witness :
-  (total_charge outZ Amber (10 # 1)%Q [mktspec CYS PosC None None (Some (8 # 1)%Q)]
-   <= total_charge outZ Amber (7 # 1)%Q [mktspec CYS PosC None None (Some (8 # 1)%Q)])%Z /\
+  (total_charge exactZ Amber (10 # 1)%Q [mktspec CYS PosC None None (Some (8 # 1)%Q)]
+   <= total_charge exactZ Amber (7 # 1)%Q [mktspec CYS PosC None None (Some (8 # 1)%Q)])%Z /\
   decide Amber PosC GCYS false = Keep true.
 Proof. exact charge_monotone_output_former_witness. Qed.
 
@@ -146,9 +210,17 @@ Print Assumptions C06_never_dropped.
 Print Assumptions C06_naming_matches_code.
 Print Assumptions C06_charge_monotone_formal.
 Print Assumptions C06_formal_defined.
-Print Assumptions C06_charge_monotone_output_partial.
+Print Assumptions C06_output_defined.
+Print Assumptions C06_state_rows_match_names.
+Print Assumptions C06_charge_monotone_output.
+Print Assumptions C06_decided_state_parameterised.
+Print Assumptions C06_decided_state_fully_parameterised.
+Print Assumptions C06_output_is_formal.
+Print Assumptions C06_one_residue_chain_as_is.
 Print Assumptions C06_key_collision_guard.
 Print Assumptions C06_key_collision_refuted.
+Print Assumptions C06_row_key_is_lookup_key.
+Print Assumptions C06_row_reaches_site.
 Print Assumptions C06_rows_filtered.
 Print Assumptions C06_pipeline_terminus_refuted.
 Print Assumptions C06_nonvacuous.
